@@ -284,6 +284,29 @@ type c03val struct {
 	Cmd  string `json:"cmd"`
 	KeyN int    `json:"key"`
 	ValN int    `json:"val"`
+	// Frag: every request arrives in pieces, cut between the CR and the LF that end its first lines (each piece is
+	// read on its own by the session)
+	Frag bool `json:"fragmented,omitempty"`
+}
+
+// c03doFragmented sends the request cut after each of its first CRs and reads the reply.
+func c03doFragmented(c *vfClient, args []string) (resp.Value, error) {
+	raw := resp.Encode(resp.Cmd(args...))
+	start, cuts := 0, 0
+	for i := 0; i < len(raw) && cuts < 12; i++ {
+		if raw[i] == '\r' && i+1 < len(raw) && raw[i+1] == '\n' {
+			if err := c.Send(raw[start : i+1]); err != nil {
+				return resp.Value{}, err
+			}
+			sched.WaitQuiescent()
+			start = i + 1
+			cuts++
+		}
+	}
+	if err := c.Send(raw[start:]); err != nil {
+		return resp.Value{}, err
+	}
+	return c.Read()
 }
 
 func c03specials(tier string) [][]byte {
@@ -336,7 +359,13 @@ func c03valueRun(cs c03val, tier string) (sig, detail string) {
 		c := s.NewClient("c0")
 		for i, args := range prog {
 			mark := len(cl.Log)
-			got, err := c.Do(args...)
+			var got resp.Value
+			var err error
+			if cs.Frag {
+				got, err = c03doFragmented(c, args)
+			} else {
+				got, err = c.Do(args...)
+			}
 			if err != nil {
 				sig, detail = "connection-failed / "+strings.ToLower(args[0]), fmt.Sprintf("step %d: %v", i, err)
 				return
@@ -382,19 +411,27 @@ func c03values(env sched.Env) *sched.Report {
 					rep.Complete = false
 					return rep
 				}
-				cs := c03val{cmd, ki, vi}
-				sched.Progress(cs)
-				sig, detail := c03valueRun(cs, env.Tier)
-				rep.Execs++
-				sched.Progress(nil)
-				if sig != "" {
-					rep.Outcomes["violation: "+sig]++
-					if !sigs[sig] {
-						sigs[sig] = true
-						rep.Violations = append(rep.Violations, sched.CustomViolation("C03/values", sig, fmt.Sprintf("%s key #%d (%d bytes) value #%d (%d bytes): %s", cmd, ki, len(sp[ki]), vi, len(sp[vi]), detail), cs))
+				for _, frag := range []bool{false, true} {
+					if frag && (ki+vi)%4 != 0 && env.Tier != "thorough" {
+						continue // quick: a quarter of the pairs also fragmented
 					}
-				} else {
-					rep.Outcomes["ok"]++
+					cs := c03val{cmd, ki, vi, frag}
+					sched.Progress(cs)
+					sig, detail := c03valueRun(cs, env.Tier)
+					rep.Execs++
+					sched.Progress(nil)
+					if sig != "" {
+						if frag {
+							sig += " / request in fragments"
+						}
+						rep.Outcomes["violation: "+sig]++
+						if !sigs[sig] {
+							sigs[sig] = true
+							rep.Violations = append(rep.Violations, sched.CustomViolation("C03/values", sig, fmt.Sprintf("%s key #%d (%d bytes) value #%d (%d bytes): %s", cmd, ki, len(sp[ki]), vi, len(sp[vi]), detail), cs))
+						}
+					} else {
+						rep.Outcomes["ok"]++
+					}
 				}
 			}
 		}
